@@ -83,6 +83,8 @@ def gen(rng, tier, ctx):
             op = {"op": "batch", "games": games}
             if klass == "faulty" and rng.random() < 0.2:
                 op["interrupt"] = {"frac": rng.random()}     # Ctrl-C inside the batch; the session goes on
+                if rng.random() < 0.4:
+                    op["interrupt"]["exc"] = "MemoryError"   # or a failing allocation
         elif r < 0.9:
             op = {"op": "cli", "games": games, "stem": rng.choice(["in1", "My_Games_2", "x", "robot_1_w2"]),
                   "style": rng.choice(textstyle.STYLES), "save": rng.random() < 0.6,
@@ -310,11 +312,21 @@ def execute(spec, w, ctx):
                 if out0["status"] == "ok":
                     v = check_entries(i_op, spec, games, out0["value"], ctx, w, states)
                     if v is None:
-                        ci = dict(c0, interrupt={"frac": op["interrupt"]["frac"], "total": out0["steps"]})
+                        ci = dict(c0, interrupt={"frac": op["interrupt"]["frac"], "total": out0["steps"],
+                                                 "exc": op["interrupt"].get("exc")})
                         outi = ops.run_games(w, arg, ci)
                         events.append([i_op, "batch-interrupted", outi["status"], outi.get("site")])
-                        if outi["status"] == "interrupt":
+                        if outi["status"] == "interrupt" or outi.get("injected"):
                             w.probe("interrupt-in:" + str(outi.get("site", "?")).split(":")[0])
+                        if outi["status"] == "ok" and outi.get("injected"):
+                            # the injected failure was swallowed: the batch claims success, so it must be right
+                            v = check_entries(i_op, spec, games, outi["value"], ctx, w, states)
+                            if v is not None and v["sig"]["class"] == "solvable-marked-failed":
+                                w.probe("injected-failure-reported-in-entry")    # says it failed: that is allowed
+                                v = None
+                            if v is not None:
+                                v["msg"] = "run_games returned normally although a MemoryError was injected at %s, yet: %s" % (
+                                    outi.get("site"), v["msg"])
                 if v is not None:
                     if ctx.known_match(ID, v) is not None:
                         res["known"].append(v)
